@@ -14,7 +14,7 @@ RULE = (
     "case = (small tagged PretextView-model map + input, output format in {FASTA, AGP, TPF}, --write-log on/off, subset "
     "selector, sentinel styles). Taggings produce single- and multi-assembly outputs (haplotigs, contaminants, two haplotypes) "
     "so every kind of output file occurs (log, info yaml, assembly files, .agp companions of FASTA, chromosome list, chr "
-    "report). Per case: (1) fresh run into an empty directory learns the output set O and its bytes; (2) a drawn non-empty "
+    "report); --log-level default / INFO / WARNING / ERROR / DEBUG; a quarter of the cases pre-create some files as symbolic links. Per case: (1) fresh run into an empty directory learns the output set O and its bytes; (2) a drawn non-empty "
     "subset S of O (half of the cases a single file) is pre-created with sentinel bytes (short, empty, longer than the real "
     "file, or identical to it) and an old mtime, the run is repeated with --no-clobber: exit status must be non-zero, the error output must name "
     "a file of S, every file of S must keep its bytes and mtime; (3) with all of S pre-created (long sentinels) the default "
@@ -83,12 +83,16 @@ def body(case, rec):
         args = ["-a", src, "-p", mp, "-o", out, "-c", case.get("prefix", "SUPER_")]
         if not case["write_log"]:
             args.append("--no-write-log")
+        if case.get("log_level"):
+            args += ["--log-level", case["log_level"]]
         code, msg = run(args, sub)
         if code != 0:
             rec.note(case, False, {"fresh_run_failed"})
             return
         O = snapshot(outd)
         names = sorted(O)
+        if case["write_log"] and "x.2.log" not in O:
+            raise Violation(f"--write-log run (log level {case.get('log_level')}) wrote no log file: {names}")
         classes = {f"fmt_{fmt}", "log" if case["write_log"] else "no_log", "subprocess" if sub else "inprocess"}
         if len([n for n in names if n.endswith("." + fmt)]) > 1:
             classes.add("multi_assembly")
@@ -108,10 +112,21 @@ def body(case, rec):
         # ---- no-clobber
         wipe(outd)
         sent = {}
+        links = {}
         for k, n in enumerate(S):
-            data = sentinel(case["styles"][k % len(case["styles"])], O[n], k)
-            (outd / n).write_bytes(data)
-            os.utime(outd / n, (1_000_000_000 + k, 1_000_000_000 + k))
+            style = case["styles"][k % len(case["styles"])]
+            data = sentinel(style, O[n], k)
+            if case.get("symlinks") and k % 2 == 0:
+                # the pre-existing output is a symbolic link to a file kept elsewhere
+                target = d / "elsewhere" / f"{k}-{n}"
+                target.parent.mkdir(exist_ok=True)
+                target.write_bytes(data)
+                os.utime(target, (1_000_000_000 + k, 1_000_000_000 + k))
+                (outd / n).symlink_to(target)
+                links[n] = target
+            else:
+                (outd / n).write_bytes(data)
+                os.utime(outd / n, (1_000_000_000 + k, 1_000_000_000 + k))
             sent[n] = (data, (outd / n).stat().st_mtime_ns)
         code, msg = run([*args, "--no-clobber"], sub)
         for n, (data, mt) in sent.items():
@@ -122,6 +137,8 @@ def body(case, rec):
                 raise Violation(f"--no-clobber: pre-existing {n} was altered (subset {S})")
             if p.stat().st_mtime_ns != mt:
                 raise Violation(f"--no-clobber: pre-existing {n} was rewritten (mtime changed)")
+            if n in links and not (p.is_symlink() and p.resolve() == links[n].resolve()):
+                raise Violation(f"--no-clobber: pre-existing {n} was a symbolic link and has been replaced")
         if code == 0:
             raise Violation(f"--no-clobber: exit status 0 although {S} already existed")
         if not any(str(outd / n) in msg for n in S):
@@ -159,6 +176,8 @@ def cases(draw):
     c["subset"] = draw(st.lists(st.integers(0, 1000), min_size=6, max_size=6))
     c["styles"] = draw(st.lists(st.sampled_from(["short", "empty", "longer", "identical"]), min_size=3, max_size=3))
     c["subprocess"] = draw(st.integers(0, 7)) == 0
+    c["log_level"] = draw(st.sampled_from([None, None, "INFO", "WARNING", "ERROR", "DEBUG"]))
+    c["symlinks"] = draw(st.integers(0, 3)) == 0
     return c
 
 
